@@ -49,7 +49,7 @@ func c09TTLName(d time.Duration) string {
 	return d.String()
 }
 
-var c09Advances = []time.Duration{time.Minute, 2 * time.Minute, 15 * time.Minute, time.Hour}
+var c09Advances = []time.Duration{time.Minute, 2 * time.Minute, 15 * time.Minute, time.Hour, 2*time.Minute - 500*time.Millisecond}
 
 // an address token: base address with an optional /p2p suffix
 type c09Tok struct {
